@@ -567,7 +567,7 @@ class Contract(object):
                  loops=None, returns=None, modifies=None, reads=None, setup=None, inline=True,
                  use=(), kwargs=None, bounded=None, note=None, max_paths=None, max_unroll=None,
                  hooks=None, sentinel_of=None, expect_fail=False, call=None, timeout_ms=None,
-                 ghost=None, apply_at_calls=False, cases=None, budget_s=None, assumed=False):
+                 ghost=None, apply_at_calls=False, cases=None, budget_s=None, assumed=False, bounds=()):
         self.target = target
         self.prop = prop
         self.params = params
@@ -597,6 +597,7 @@ class Contract(object):
         self.cases = cases
         self.budget_s = budget_s
         self.assumed = assumed
+        self.bounds = list(bounds)
 
 
 REGISTRY = []
@@ -680,18 +681,32 @@ class SpecExec(Exec):
             return Exec.ex_BoolOp(self, e)
         is_and = isinstance(e.op, ast.And)
         acc = []
-        for x in e.values:
-            v = self.eval(x)
-            t = self.truth(v)
-            if isinstance(t, bool):
-                if is_and and not t:
-                    return False if not acc else mk_bool(z3.BoolVal(False))
-                if (not is_and) and t:
-                    return True
-                continue
-            acc.append(t.t)
-            # later operands are evaluated under the assumption that this one
-            # does not already decide the result
+        marks = []
+        try:
+            for x in e.values:
+                v = self.eval(x)
+                t = self.truth(v)
+                if isinstance(t, bool):
+                    if is_and and not t:
+                        return False
+                    if (not is_and) and t:
+                        return True
+                    continue
+                acc.append(t.t)
+                # later operands are evaluated under the assumption that this
+                # one does not already decide the result (short circuit)
+                guard = t.t if is_and else z3.Not(t.t)
+                if self.check(guard) == z3.unsat:
+                    break
+                marks.append((self.push_scope(), guard))
+                self.solver.add(guard)
+                self.pc.append(guard)
+        finally:
+            for mark, guard in reversed(marks):
+                extra = self.pop_scope(mark)[1:]
+                for c in extra:
+                    self.solver.add(z3.Implies(guard, c))
+                    self.pc.append(z3.Implies(guard, c))
         if not acc:
             return True if is_and else False
         return mk_bool(z3.And(acc) if is_and else z3.Or(acc))
@@ -1187,7 +1202,7 @@ def verify(world_factory, c, registry_by_name=None):
         if c.setup is not None:
             c.setup(ex, env)
         mod = raw.module if isinstance(raw, FuncVal) else None
-        for r in c.requires:
+        for r in c.requires + c.bounds:
             ex.assume(clause_truth(ex, r, env, mod, None, None, 'requires'))
         if ex.check() != z3.sat:
             raise PathEnd()
